@@ -404,6 +404,10 @@ impl<'a> Gen<'a> {
             _ => SymReq::bare(*self.rng.pick(&[op::NOOP, op::VERSION, op::STAT])),
         };
         r.opaque = self.opaque();
+        // the reserved (vbucket) field of a request is not part of any rule: it must not matter
+        if self.rng.chance(1, 12) {
+            r.vbucket = 1 + (self.rng.next() % 0xffff) as u16;
+        }
         r
     }
 
